@@ -811,6 +811,7 @@ def literal(v: T.Any) -> str:
 
 _FSTR_RE = re.compile(r'@([_a-zA-Z][_0-9a-zA-Z]*)@')
 _FMT_RE = re.compile(r'@([0-9]+)@')
+_FMT_OVERLAP_RE = re.compile(r'@[0-9]+@[0-9]+@')
 _PY_ONLY_LINEBREAKS = re.compile('[\\v\\f\\x1c\\x1d\\x1e\\x85\\u2028\\u2029]')
 _DOC_INT_RE = re.compile(r'-?(0|[1-9][0-9]*)\Z')
 _DOC_BASED_RE = re.compile(r'0x[0-9a-fA-F]+\Z|0o[0-7]+\Z|0b[01]+\Z')
@@ -1409,10 +1410,14 @@ class Evaluator:
             except RefRuntimeError:
                 raise RefUnspecified('format() of an object that is not elementary')
 
+        # "@number@ is replaced by the corresponding argument": one pass over the template; inserted text is never
+        # looked at again; @01@ is the number 1.  Where two candidates share an '@' (as in '@1@0@') the documents
+        # do not say which one is the placeholder.
+        if _FMT_OVERLAP_RE.search(s):
+            raise RefUnspecified('overlapping @N@ candidates in a format template')
+
         def rep(m: T.Match[str]) -> str:
             digits = m.group(1)
-            if len(digits) > 1 and digits[0] == '0':
-                raise RefUnspecified('@0N@ placeholder')
             i = int(digits)
             if i >= len(texts):
                 raise RefUnspecified('format placeholder beyond the arguments')
